@@ -66,9 +66,12 @@ def run(tier):
             cfg = make_cfg(chars_of(it['g'], it['texts']), nameguard=False, act=act, actrule='*')
             jobkey.append((len(cases), act))
             jobs.add(it['g'], cfg, it['texts'])
+        from .c02 import in_define_scope, in_lastnode_scope
+        c02scope = in_lastnode_scope(it['g']) or in_define_scope(it['g'])     # value binding of generated code: C02's known findings
         for backend in ('model', 'generated'):
             cases.append(default_case(to_ebnf(it['g']), it['texts'], settings={'nameguard': False}, rules=rules, kinds=kinds,
-                                      backend=backend, params=it.get('params'), label=it['label'], nomemo=it['nomemo']))
+                                      backend=backend, params=it.get('params'), label=it['label'], nomemo=it['nomemo'],
+                                      c02scope=c02scope))
     r, spec = run_oracle(jobs)
     ck.add_tlc(r, 'PegSemBatch')
     # spec results per item: {act: [outcome per text]}
@@ -100,6 +103,14 @@ def run(tier):
             def same(a, b):
                 return a['k'] == b['k'] and (a['k'] != 'ok' or a['v'] == b['v'])
             so = {a: sp[a][t] for a in sp}
+            if so['none'].get('unspec'):
+                # the AST of this shape is left open by the documents (spec/UNSPECIFIED.md); what an action sees, and hence whether
+                # the failing/raising predicate fires, is not determined: no verdict for this case
+                ck.notes['skipped_unspecified'] = ck.notes.get('skipped_unspecified', 0) + 1
+                continue
+            if c['backend'] == 'generated' and c.get('c02scope'):
+                ck.notes['skipped_generated_KF_C02'] = ck.notes.get('skipped_generated_KF_C02', 0) + 1
+                continue
             if so['tag']['k'] == 'ok':
                 seen.add((c['ebnf'], repr(so['tag'].get('v'))))
             if ci % 40 == 0 and t == 5:
